@@ -428,6 +428,21 @@ func c18VariantList() []c18Variant {
 			a.Versions = []int{1, 4}
 			return []c18Affected{a}
 		}},
+		{name: "explicit_versions_descending", build: func(eco string, p []c18Event) []c18Affected {
+			a := one(eco, c18Names[eco], c18Range{Type: "ECOSYSTEM", Events: p})
+			a.Versions = []int{4, 1}
+			return []c18Affected{a}
+		}},
+		{name: "explicit_versions_unordered", build: func(eco string, p []c18Event) []c18Affected {
+			a := one(eco, c18Names[eco], c18Range{Type: "ECOSYSTEM", Events: p})
+			a.Versions = []int{5, 0, 3, 6, 2}
+			return []c18Affected{a}
+		}},
+		{name: "explicit_versions_repeated", build: func(eco string, p []c18Event) []c18Affected {
+			a := one(eco, c18Names[eco], c18Range{Type: "ECOSYSTEM", Events: p})
+			a.Versions = []int{2, 6, 2, 0}
+			return []c18Affected{a}
+		}},
 		{name: "explicit_versions_other_package", build: func(eco string, p []c18Event) []c18Affected {
 			o := c18Affected{Eco: eco, Name: c18OtherNames[eco], Versions: []int{0, 1, 2, 3, 4, 5, 6}}
 			return []c18Affected{o, one(eco, c18Names[eco], c18Range{Type: "ECOSYSTEM", Events: p})}
